@@ -40,7 +40,10 @@ def driver(prop: str):
 
 def hashseeds(seed: int):
     """Two PYTHONHASHSEED classes per batch: 0 and a seed-derived one."""
-    return ["0", str(1 + core.run_seed(seed, "hashseed", 0) % 4000000000)]
+    hs = ["0", str(1 + core.run_seed(seed, "hashseed", 0) % 4000000000)]
+    if os.environ.get("VERIF_SWAP_HASHSEEDS"):
+        hs.reverse()   # self-test: every run index executes under the other hash seed
+    return hs
 
 
 def reexec_with_hashseed(hs: str) -> None:
